@@ -73,6 +73,37 @@ def core(n):
   return c
 
 
+def wide_terms():
+  """terms beyond the small alphabet: records of 11-13 fields (names f0..f12, positions 0..12, mixed), single-field differences at the
+  first / middle / two-digit positions, nesting depth 4-5"""
+  out = []
+  cyc = ['Num', 'Str', 'Bool', 'Any', 'Singular', 'Num', 'Sequential', 'Str', 'Time', 'Num', 'Str', 'Bool', 'Num']
+  for names in ([('f%d' % i) for i in range(13)], list(range(13)), [0, 1, 2, 'a', 10, 'b', 11, 'col10', 3, 'z', 12, 'f10', 4]):
+    for kind in ('open', 'closed'):
+      full = tuple(zip(names, cyc))
+      out.append((kind, full[:12]))
+      out.append((kind, full))                      # one more field
+      out.append((kind, full[:11]))                 # one fewer
+      out.append((kind, full[1:12]))                # first missing
+      for pos in (0, 5, 10, 11):
+        alt = list(full[:12]); alt[pos] = (alt[pos][0], 'Str' if alt[pos][1] != 'Str' else 'Num'); out.append((kind, tuple(alt)))
+        alt = list(full[:12]); alt[pos] = (alt[pos][0], 'Any'); out.append((kind, tuple(alt)))
+        alt = list(full[:12]); alt[pos] = (alt[pos][0], ('list', 'Num')); out.append((kind, tuple(alt)))
+  deep = 'Num'
+  for lvl in range(5):
+    deep = ('list', deep) if lvl % 2 == 0 else ('open' if lvl == 1 else 'closed', (('a', deep), ('b', 'Str')))
+    out.append(deep)
+    out.append(('closed', (('r', deep), (0, 'Num'))))
+  deep2 = 'Str'
+  for lvl in range(5):
+    deep2 = ('list', deep2) if lvl % 2 == 0 else ('open', (('a', deep2),))
+    out.append(deep2)
+  seen = set(); res = []
+  for t in out:
+    if t not in seen: seen.add(t); res.append(t)
+  return res
+
+
 CHAIN = [1]     # number of TypeReference links per node (the type checker builds chains of references)
 
 
@@ -268,6 +299,7 @@ def plan(ctx):
   if not ctx.thorough:
     tasks += [('pairs2', 0, i, 16) for i in range(16)]   # depth-2 terms x the 44 core terms, both orders
   tasks += [('alias', 0, 0, 1)]
+  tasks += [('wide', c, i, 8) for c in (1, 3) for i in range(8)]      # wide terms squared and against the core, references as chains of 1 and 3 links
   return tasks
 
 
@@ -277,6 +309,19 @@ def work(task):
   bad = []; stats = dict(); samples = []
   CHAIN[0] = 2 if kind == 'pairs-chained' else 1
   if kind == 'pairs-chained': kind = 'pairs'
+  if kind == 'wide':
+    CHAIN[0] = arg
+    W = wide_terms(); C = core(44); n = 0; cmp = 0; clashes = 0; nontriv = 0
+    for ai in range(i, len(W), nsh):
+      a = W[ai]
+      for b in W + C:
+        for p, q in ((a, b),) if b in W else ((a, b), (b, a)):
+          n += 1; cmp += check_pair(ra, p, q, bad)
+          m = meet(canon(p), canon(q))
+          if m is None: clashes += 1
+          elif m != canon(p) and m != canon(q): nontriv += 1
+    stats = dict(pairs=n, unify_calls=n * 4, comparisons=cmp, model_clashes=clashes, proper_meets=nontriv, wide_terms=len(W) if i == 0 and arg == 1 else 0)
+    kind = 'done'
   if kind == 'pairs':
     T = term_set(arg)
     n = 0; cmp = 0; clashes = 0; nontriv = 0
@@ -289,6 +334,8 @@ def work(task):
         elif m != canon(a) and m != canon(b): nontriv += 1
     if i == 0: samples.append(dict(pair=[repr(T[5]), repr(T[40])], model_meet=repr(meet(canon(T[5]), canon(T[40])))))
     stats = dict(pairs=n, unify_calls=n * 4, comparisons=cmp, model_clashes=clashes, proper_meets=nontriv, terms=len(T) if i == 0 else 0)
+  elif kind == 'done':
+    pass
   elif kind == 'pairs2':
     d1 = set(depth1()); T2 = [t for t in depth2() if t not in d1]; C = core(44)
     n = 0; cmp = 0; clashes = 0; nontriv = 0
